@@ -269,6 +269,18 @@ def sqlite_cell(cell):
             sys.settrace(None)
         total = count[0]
         res["stats"]["sqlite_line_events"] = total
+        # the complete save on top of the previous checkpoint must load as exactly the new state (nothing of the old row survives)
+        res["evaluations"] += 1
+        try:
+            with quiet():
+                got = canon(list(sq.load_calibrator_state(w)))
+            if got != new_k:
+                viol("sqlite:complete-save-not-new", "a complete save on top of a previous checkpoint does not load as the new state", {"mode": "sqlite", "cfg": cfg, "old_batches": cell["old_batches"], "new_batches": cell["new_batches"], "big": big, "other_run": cell.get("other_run", False), "k": -1})
+            else:
+                res["outcomes"].add(("sqlite-complete", "new"))
+        except Exception as e:  # noqa: BLE001
+            viol("sqlite:complete-save-not-loadable", f"{type(e).__name__}: {e}", {"mode": "sqlite", "cfg": cfg, "old_batches": cell["old_batches"], "new_batches": cell["new_batches"], "big": big, "other_run": cell.get("other_run", False), "k": -1})
+        shutil.rmtree(w, ignore_errors=True)
         for k in range(total):
             w = root / f"inj{k}"
             shutil.copytree(base, w)
